@@ -575,6 +575,11 @@ class UnitDatabase(Singleton):
             caption=caption,
         )
 
+        if category in self.categories_to_quantity_types:
+            # Overriding: quantities cached for the previous definition are no longer valid.
+            self.quantities_cache.clear()
+        # A (category, unit) pair previously checked for this category may have a new verdict.
+        self._category_unit_valid.clear()
         self.categories_to_quantity_types[category] = info
         return info
 
